@@ -21,7 +21,7 @@ def cases_for(rng, tier):
     for _ in range(nrand):
         items = gen_forest(rng)
         sp = gen_spelling(rng, items)
-        out.append((items, sp, rng.choice(BF_CHOICES), rng.choice(["0", "0", "1"])))
+        out.append((items, sp, rng.choice(BF_CHOICES + [None, None]), rng.choice(["0", "0", "1"])))
     return out
 
 
@@ -37,6 +37,21 @@ def run(ck, rng):
     model = run_model(lines)
     spec = run_model(specs)
     ck.xcheck_cases = (lines, model)
+    # the same cases in a process whose ENVIRONMENT differs (legacy locales, no TERM, odd TZ / HOME / NO_COLOR ...): the text
+    # is a function of the input and the options only
+    sample = rng.sample(range(len(lines)), min(300, len(lines)))
+    for envx in ({"LC_ALL": "ja_JP.eucJP", "LANG": "ja_JP.eucJP"}, {"LANG": "en_US.ISO-8859-1", "LC_CTYPE": "de_DE.ISO-8859-15@euro", "TERM": "dumb", "TZ": "Pacific/Chatham"},
+                 {"LC_ALL": "C", "NO_COLOR": "1", "HOME": "/nonexistent", "COLUMNS": "10", "GTREE_DEBUG": "1"}):
+        e2 = dict(os.environ)
+        e2.update(envx)
+        got, _ = run_impl(exe, [lines[i] for i in sample], env=e2)
+        for i, g in zip(sample, got):
+            ck.case("env " + " ".join(sorted(envx)) + " " + lines[i][:200], True)
+            ck.count("environment_variants")
+            if g != impl[i]:
+                ck.violation({"property": "C01", "kind": "text_rule", "class": "environment", "case": lines[i], "environment": envx,
+                              "input": "", "expected": impl[i][:300], "got": g[:300],
+                              "why": "the output depends on the process environment"})
     broken_corr = None
     for i, (items, sp, bf, noiter) in enumerate(cs):
         ck.case(lines[i], len(items) >= 2)
